@@ -1193,6 +1193,12 @@ REGRESSION_CHAINS = [
     ("Ok::<Result<i64, i64>, i64>(Err(4)) => >>> !> |e: i64| e + 1 ~!> >>> ..wrapping_mul(10)",
      "Ok::<Result<i64, i64>, i64>(Err(4)).and_then(|v| v.map_err(|e: i64| e + 1)).map_err(|e| e.wrapping_mul(10))", "Result<i64, i64>"),
     ("Some(2i64) => >>> ..checked_add(1) ~?> >>> ..is_positive() <<< |> |v| v * 3", "Some(2i64).and_then(|v| v.checked_add(1)).filter(|v| v.is_positive()).map(|v| v * 3)", "_"),
+    # a wrapper with an empty nested chain is `.op(|v| v)`, which is the identity only for `|>` and `!>`
+    ("Some(Some(1i64)) => >>> <<< |> |v| v + 1", "Some(Some(1i64)).and_then(|v| v).map(|v| v + 1)", "Option<i64>"),
+    ("vec![Some(1i64), None, Some(3)].into_iter() ?|> >>> <<< ..count()", "vec![Some(1i64), None, Some(3)].into_iter().filter_map(|v| v).count()", "usize"),
+    ("vec![None, Some(4i64)].into_iter() ?|>@ >>>", "vec![None, Some(4i64)].into_iter().find_map(|v| v)", "Option<i64>"),
+    ("Err::<i64, Result<i64, i64>>(Ok(5)) <= >>> <<< |> |v| v * 2", "Err::<i64, Result<i64, i64>>(Ok(5)).or_else(|v| v).map(|v| v * 2)", "Result<i64, i64>"),
+    ("Some(Some(Some(2i64))) => >>> => >>> <<< <<< |> |v| v + 1", "Some(Some(Some(2i64))).and_then(|v| v.and_then(|v| v)).map(|v| v + 1)", "Option<i64>"),
 ]
 
 
@@ -1316,6 +1322,14 @@ def run_joiner_programs(ctx):
 
 
 NESTING = [
+    # a brace-delimited macro standing as a whole operand is an expression like any other: it runs where it is written, after
+    # the branches in front of it (`tname` logs its id)
+    ("join", "tname(1), join! { tname(2), tname(3) }, tname(4)", "(tname(1), (tname(2), tname(3)), tname(4))", "(i64, (i64, i64), i64)"),
+    ("join", "tname(1) -> |v: i64| v + 1, join! { tname(2) } -> |v: i64| v * 2", "((|v: i64| v + 1)(tname(1)), (|v: i64| v * 2)(tname(2)))",
+     "(i64, i64)"),
+    ("try_join", "Some(tname(1)), try_join! { Some(tname(2)), Some(tname(3)) }, Some(9i64) <| join! { Some(tname(4)) }",
+     "{ let a = Some(tname(1)); let b = { let x = Some(tname(2)); let y = Some(tname(3)); x.and_then(|x| y.map(|y| (x, y))) }; "
+     "let c = Some(9i64).or({ Some(tname(4)) }); a.and_then(|a| b.and_then(|b| c.map(|c| (a, b, c)))) }", "Option<(i64, (i64, i64), i64)>"),
     # (macro name, macro input, plain Rust, type)
     ("join", "Some(1i64) |> |v| join! { v -> |x: i64| try_join! { Some(x) |> |y| y + 1 }.unwrap_or(0) }",
      "Some(1i64).map(|v| (|x: i64| Some(x).map(|y| y + 1).unwrap_or(0))(v))", "Option<i64>"),
@@ -1404,6 +1418,12 @@ fn main() {
     let mut seen = 0usize;
     let wm = try_join! { Some(Some(1usize)) => >>> |> |v| { seen += 1; v + label.len() } <<< |> |v| v + 1, Some(2usize) };
     println!("wrapmoveonly\t{:?} {} {}", wm, seen, label);
+    // the `??` inspector is a closure like any other operand: it may borrow from the caller's stack (a counter), in plain
+    // and deferred position, in the sequential and the try macro
+    let looks = std::cell::Cell::new(0i64);
+    let ib = join! { 5i64 ?? |v: &i64| looks.set(looks.get() + *v) -> inc, 2i64 ~?? |_: &i64| { } };
+    let it = try_join! { Some(7i64) ?? |v: &Option<i64>| looks.set(looks.get() + v.unwrap_or(0)) |> inc };
+    println!("inspectborrow\t{:?} {:?} {}", ib, it, looks.get());
 }
 '''
 COST_EXPECTED = {
@@ -1416,6 +1436,7 @@ COST_EXPECTED = {
     "asyncborrow": "(3, 3)",
     "wrapborrow": "Some(3) 1",
     "wrapmoveonly": "Some((4, 2)) 1 ab",
+    "inspectborrow": "(6, 2) Some(8) 12",
 }
 
 
